@@ -364,6 +364,11 @@ impl WriteHalf {
         }
 
         if !self.flow_control.try_acquire() {
+            // No credit will ever be released once the peer has reset the
+            // connection.
+            if !World::current(|world| world.current_host_mut().tcp.has_stream(*self.pair)) {
+                return Err(io::Error::new(io::ErrorKind::BrokenPipe, "Broken pipe"));
+            }
             return Err(io::Error::new(
                 io::ErrorKind::WouldBlock,
                 "send buffer full",
@@ -386,7 +391,9 @@ impl WriteHalf {
                 "Broken pipe",
             )));
         }
-        if self.flow_control.has_credits() {
+        if self.flow_control.has_credits()
+            || !World::current(|world| world.current_host_mut().tcp.has_stream(*self.pair))
+        {
             return Poll::Ready(Ok(()));
         }
         self.flow_control.register_waker(cx.waker().clone());
@@ -500,6 +507,11 @@ impl BidiFlowControl {
         }
     }
 
+    /// Wakes the local writer if it is parked waiting for a credit.
+    pub(crate) fn wake_writer(&self) {
+        self.write.wake();
+    }
+
     pub(crate) fn invert(self) -> Self {
         Self {
             write: self.read,
@@ -534,6 +546,12 @@ impl FlowControl {
 
     fn release(&self) {
         self.credits.fetch_add(1, Ordering::Release);
+        if let Some(waker) = self.waker.lock().unwrap().take() {
+            waker.wake();
+        }
+    }
+
+    fn wake(&self) {
         if let Some(waker) = self.waker.lock().unwrap().take() {
             waker.wake();
         }
